@@ -59,7 +59,7 @@ def main():
             def run_demo():
                 demo_go = os.path.join(d, "demo_test.go")
                 demo_sh = os.path.join(d, "demo.sh")
-                if os.path.exists(demo_go):
+                if os.path.exists(demo_go) and not os.path.exists(demo_sh):  # a script that wraps the test (e.g. -race) wins
                     pkg = meta.get("demo_pkg_dir") or "."
                     shutil.copy(demo_go, os.path.join(scratch, pkg, "zz_seed_demo_test.go"))
                     m = re.findall(r"func (Test\w+)", open(demo_go).read())
@@ -87,7 +87,7 @@ def main():
             # demonstration
             demo_go = os.path.join(d, "demo_test.go")
             demo_sh = os.path.join(d, "demo.sh")
-            if os.path.exists(demo_go):
+            if os.path.exists(demo_go) and not os.path.exists(demo_sh):  # a script that wraps the test (e.g. -race) wins
                 pkg = meta.get("demo_pkg_dir") or "."
                 shutil.copy(demo_go, os.path.join(scratch, pkg, "zz_seed_demo_test.go"))
                 m = re.findall(r"func (Test\w+)", open(demo_go).read())
